@@ -652,6 +652,92 @@ func c36cVirtualClock(r *vlib.Run, env *c36Env) int {
 		}
 	}
 
+	// the special rule values on the virtual clock: "nolimit" allows every request, "0" none, at any time
+	for _, v := range []string{"nolimit", "zero"} {
+		v := v
+		rule := env.rules[v]
+		want := humanizeRateLimiter(rule.Limit, rule.Burst)
+		grid := []time.Duration{0, time.Second / 4, time.Second / 2, time.Second, 2 * time.Second}
+
+		sched := make([]int, 0, 4)
+
+		var rec func(from int)
+		rec = func(from int) {
+			if len(sched) > 0 {
+				id := "V/" + v + "/" + c36Ints(sched)
+
+				mine := r.Mine(item)
+				item++
+
+				if mine && r.Want(id) && !r.Expired() {
+					allowedAt := make([]bool, len(sched))
+					limiters := make([]string, len(sched))
+
+					ex := vsched.Run(vsched.Options{}, func() {
+						args := NewRateLimitHandlerArgs()
+						args.PoolSizes = []uint64{2, 2}
+						args.Rules = NewRateLimiterRules()
+						_ = args.Rules.SetDefaultRuleMap(NewRateLimiterRuleMap(nil, map[string]RateLimiterRule{c36Handler: rule}))
+
+						h, err := NewRateLimitHandler(args)
+						if err != nil {
+							panic(err)
+						}
+
+						cur := time.Duration(0)
+
+						for i, g := range sched {
+							if grid[g] > cur {
+								vsched.Advance(grid[g] - cur)
+								cur = grid[g]
+							}
+
+							_, limiters[i], allowedAt[i] = c36cRequest(h, env.addrs["a3"], "-")
+						}
+					})
+
+					if ex.Panic != nil || ex.Deadlock || ex.Diverged != "" {
+						panic(fmt.Sprintf("part V execution failed: panic=%v deadlock=%v %s", ex.Panic, ex.Deadlock, ex.Diverged))
+					}
+
+					r.Eval()
+					r.Trace()
+					r.StatesN(1)
+					r.NontrivialN(1)
+
+					ok := true
+
+					for i := range sched {
+						if limiters[i] != want || allowedAt[i] != (v == "nolimit") {
+							ok = false
+
+							r.Violation(id, map[string]any{"kind": "enforcement", "class": "special-value-virtual-clock", "value": v},
+								fmt.Sprintf("rule %q: request %d of schedule %v served by limiter %s, allowed=%v", v, i, sched, limiters[i], allowedAt[i]), nil)
+
+							break
+						}
+					}
+
+					if ok {
+						r.Outcome("V-ok/" + v)
+					}
+				}
+			}
+
+			if len(sched) == 4 {
+				return
+			}
+
+			for g := from; g < len(grid); g++ {
+				sched = append(sched, g)
+				rec(g)
+				sched = sched[:len(sched)-1]
+			}
+		}
+
+		rec(0)
+	}
+
 	return item
 }
 
